@@ -1223,36 +1223,31 @@ pub(crate) struct EventWorld {
     pub w: World,
     pub owner: u8,
     /// sub[c][e]: connection c subscribed to event e (e in {0,1}); all[c]: subscribed to all events
-    pub sub: [[bool; 2]; 3],
-    pub all: [bool; 3],
+    pub sub: [[bool; 2]; 2],
+    pub all: [bool; 2],
 }
 
-/// Connections 0, 1, 2; object (0, 10) owned by `owner`, service (0, 20) that supports
-/// subscribe-all; an arbitrary set of event / all-events subscriptions, mirrored between the
-/// service and the subscribers' connection states.
-pub(crate) fn event_world() -> EventWorld {
+/// Concrete shape, symbolic scalars: connections 0 and 1 (arbitrary versions, each peer possibly
+/// gone); object (0, 10) owned by `owner`, service (0, 20) that supports subscribe-all; the given
+/// event / all-events subscriptions, mirrored between the service and the subscribers' connection
+/// states (as `subscribe_event` / `subscribe_all_events` leave them).
+pub(crate) fn event_world(owner: u8, sub: [[bool; 2]; 2], all: [bool; 2]) -> EventWorld {
     let mut w = new_world();
     add_conn(&mut w, 0);
     add_conn(&mut w, 1);
-    add_conn(&mut w, 2);
-    let owner = any_below(2);
     add_object(&mut w, 0, 10, owner);
     add_service(&mut w, 0, 10, 0, 20, ServiceInfo::new(1).set_subscribe_all(true));
-    let mut sub = [[false; 2]; 3];
-    let mut all = [false; 3];
     let mut c = 0u8;
-    while c < 3 {
+    while c < 2 {
         let mut e = 0u32;
         while e < 2 {
-            if kani::any() {
-                sub[c as usize][e as usize] = true;
+            if sub[c as usize][e as usize] {
                 w.b.svcs.get_mut(&(obj_uuid(0), svc_uuid(0))).unwrap().subscribe_event(e, conn(c));
                 w.b.conns.get_mut(&conn(c)).unwrap().subscribe_event(svc_cookie(20), e);
             }
             e += 1;
         }
-        if kani::any() {
-            all[c as usize] = true;
+        if all[c as usize] {
             w.b.svcs.get_mut(&(obj_uuid(0), svc_uuid(0))).unwrap().subscribe_all_events(conn(c));
             w.b.conns.get_mut(&conn(c)).unwrap().subscribe_all_events(svc_cookie(20));
         }
@@ -1263,7 +1258,7 @@ pub(crate) fn event_world() -> EventWorld {
 }
 
 fn n_subs(ew: &EventWorld, e: usize) -> usize {
-    (ew.sub[0][e] as usize) + (ew.sub[1][e] as usize) + (ew.sub[2][e] as usize)
+    (ew.sub[0][e] as usize) + (ew.sub[1][e] as usize)
 }
 
 fn svc_has_sub(w: &World, e: u32, c: u8) -> bool {
@@ -1278,22 +1273,20 @@ fn conn_has_sub(w: &World, e: u32, c: u8) -> bool {
 mod events {
     use super::*;
 
+    const T: bool = true;
+    const F: bool = false;
+
     /// Fan-out: an event emitted by the owner reaches exactly the connections subscribed to that
     /// event id or to all events, once each, payload unchanged; a non-owner's emit is dropped.
-    #[kani::proof]
-    #[kani::unwind(18)]
-    fn q_c04_c11_emit_event() {
-        let mut ew = event_world();
-        let who = any_conn_tag();
-        let e = any_below(2) as u32;
-        let known = kani::any();
+    fn emit_event_lemma(owner: u8, sub: [[bool; 2]; 2], all: [bool; 2], who: u8, e: u32, known: bool) {
+        let mut ew = event_world(owner, sub, all);
         let cookie = if known { svc_cookie(20) } else { svc_cookie(21) };
         ew.w.b.emit_event(&mut ew.w.st, &conn(who), EmitEvent { service_cookie: cookie, event: e, value: small_value() });
         if !known || who != ew.owner {
             assert!(log_len() == 0, "events of unknown services or from non-owners are dropped");
         } else {
             let mut c = 0u8;
-            while c < 3 {
+            while c < 2 {
                 let subscribed = ew.sub[c as usize][e as usize] || ew.all[c as usize];
                 let got = count_kind_to(c, K::EmitEvent, |x| x.cookie == 20 && x.aux == e && x.vlen == 2 && x.v0 == 3 && x.v1 == 7);
                 let expect = if subscribed && !send_fails(c) { 1 } else { 0 };
@@ -1302,24 +1295,16 @@ mod events {
                 c += 1;
             }
         }
-        kani::cover!(known && who == ew.owner && log_len() == 3);
-        kani::cover!(known && who == ew.owner && log_len() == 0);
         std::mem::forget(ew);
     }
 
     /// Subscribe: one reply; the owner is asked to start producing iff this is the 0 -> 1 transition.
-    #[kani::proof]
-    #[kani::unwind(18)]
-    fn q_c04_c11_subscribe_event() {
-        let mut ew = event_world();
-        let who = any_conn_tag();
+    fn subscribe_event_lemma(owner: u8, sub: [[bool; 2]; 2], all: [bool; 2], who: u8, e: u32, known: bool) {
+        let mut ew = event_world(owner, sub, all);
         set_send_fails(who, false);
-        let e = any_below(2) as u32;
         let serial: u32 = kani::any();
-        let known = kani::any();
         let cookie = if known { svc_cookie(20) } else { svc_cookie(21) };
         let n0 = n_subs(&ew, e as usize);
-        kani::assume(n0 < 3 || ew.sub[who as usize][e as usize]);
         let r = ew.w.b.subscribe_event(&conn(who), SubscribeEvent { serial: Some(serial), service_cookie: cookie, event: e });
         assert!(r.is_ok());
         let replies = count_kind_to(who, K::SubscribeEventReply, |x| x.serial == serial);
@@ -1332,20 +1317,17 @@ mod events {
             let asked = count_kind_to(ew.owner, K::SubscribeEvent, |x| !x.has_serial && x.aux == e && x.cookie == 20);
             let first = n0 == 0;
             assert!(asked == if first && !send_fails(ew.owner) { 1 } else { 0 }, "owner told to start exactly on the 0 -> 1 transition");
+            // the other connection's subscriptions are untouched
+            let o = 1 - who;
+            assert!(svc_has_sub(&ew.w, e, o) == ew.sub[o as usize][e as usize]);
+            assert!(svc_has_sub(&ew.w, 1 - e, who) == ew.sub[who as usize][(1 - e) as usize]);
         }
-        kani::cover!(known && n0 == 0);
-        kani::cover!(known && n0 > 0);
         std::mem::forget(ew);
     }
 
     /// Unsubscribe: the owner is told to stop iff this removes the last subscriber.
-    #[kani::proof]
-    #[kani::unwind(18)]
-    fn q_c04_c11_unsubscribe_event() {
-        let mut ew = event_world();
-        let who = any_conn_tag();
-        let e = any_below(2) as u32;
-        let known = kani::any();
+    fn unsubscribe_event_lemma(owner: u8, sub: [[bool; 2]; 2], all: [bool; 2], who: u8, e: u32, known: bool) {
+        let mut ew = event_world(owner, sub, all);
         let cookie = if known { svc_cookie(20) } else { svc_cookie(21) };
         let n0 = n_subs(&ew, e as usize);
         let was = ew.sub[who as usize][e as usize];
@@ -1358,15 +1340,67 @@ mod events {
             let last = was && n0 == 1;
             assert!(told == if last && !send_fails(ew.owner) { 1 } else { 0 }, "owner told to stop exactly on the 1 -> 0 transition");
             assert!(log_len() == told);
-            // other subscribers keep their subscription
-            let o = any_conn_tag();
-            if o != who {
-                assert!(svc_has_sub(&ew.w, e, o) == ew.sub[o as usize][e as usize]);
-            }
+            // other subscriptions stay
+            let o = 1 - who;
+            assert!(svc_has_sub(&ew.w, e, o) == ew.sub[o as usize][e as usize]);
+            assert!(svc_has_sub(&ew.w, 1 - e, who) == ew.sub[who as usize][(1 - e) as usize]);
+            assert!(conn_has_sub(&ew.w, 1 - e, who) == ew.sub[who as usize][(1 - e) as usize]);
         }
-        kani::cover!(known && was && n0 == 1);
-        kani::cover!(known && was && n0 > 1);
         std::mem::forget(ew);
+    }
+
+    macro_rules! inst {
+        ($($name:ident = $lemma:ident($($arg:expr),*) $(=> $cov:expr)?;)*) => {$(
+            #[kani::proof]
+            #[kani::unwind(18)]
+            fn $name() {
+                $lemma($($arg),*);
+                kani::cover!(true);
+                $(kani::cover!($cov);)?
+            }
+        )*};
+    }
+    macro_rules! inst_t {
+        ($($name:ident = $lemma:ident($($arg:expr),*) $(=> $cov:expr)?;)*) => {$(
+            #[cfg(any(verif_unit = "all", verif_unit = "events_t"))]
+            #[kani::proof]
+            #[kani::unwind(18)]
+            fn $name() {
+                $lemma($($arg),*);
+                kani::cover!(true);
+                $(kani::cover!($cov);)?
+            }
+        )*};
+    }
+
+    // arguments: owner, sub[conn][event], all[conn], requester, event id, cookie known
+    inst! {
+        q_c04_c11_emit_both_subscribed = emit_event_lemma(0, [[T, F], [T, F]], [F, F], 0, 0, true) => log_len() == 2;
+        q_c04_c11_emit_all_events_subscriber = emit_event_lemma(0, [[F, F], [F, F]], [F, T], 0, 1, true) => log_len() == 1;
+        q_c04_c11_emit_subscribed_both_ways_once = emit_event_lemma(0, [[F, F], [T, F]], [F, T], 0, 0, true) => log_len() == 1;
+        q_c04_c11_emit_other_event_only = emit_event_lemma(0, [[F, F], [F, T]], [F, F], 0, 0, true);
+        q_c04_c11_emit_by_non_owner = emit_event_lemma(0, [[T, F], [T, F]], [F, F], 1, 0, true);
+        q_c04_c11_emit_unknown_cookie = emit_event_lemma(0, [[T, F], [T, F]], [F, F], 0, 0, false);
+
+        q_c04_c11_subscribe_first = subscribe_event_lemma(0, [[F, F], [F, T]], [F, F], 1, 0, true)
+            => count_kind_to(0, K::SubscribeEvent, |x| !x.has_serial) == 1;
+        q_c04_c11_subscribe_second = subscribe_event_lemma(0, [[T, F], [F, F]], [F, F], 1, 0, true);
+        q_c04_c11_subscribe_again = subscribe_event_lemma(0, [[F, F], [T, F]], [F, F], 1, 0, true);
+        q_c04_c11_subscribe_unknown_cookie = subscribe_event_lemma(0, [[F, F], [F, F]], [F, F], 1, 0, false);
+
+        q_c04_c11_unsubscribe_last = unsubscribe_event_lemma(0, [[F, F], [T, T]], [F, F], 1, 0, true)
+            => count_kind_to(0, K::UnsubscribeEvent, |_| true) == 1;
+        q_c04_c11_unsubscribe_one_of_two = unsubscribe_event_lemma(0, [[T, F], [T, F]], [F, F], 1, 0, true);
+        q_c04_c11_unsubscribe_not_subscribed = unsubscribe_event_lemma(0, [[T, F], [F, T]], [F, F], 1, 0, true);
+        q_c04_c11_unsubscribe_unknown_cookie = unsubscribe_event_lemma(0, [[F, F], [T, F]], [F, F], 1, 0, false);
+    }
+    inst_t! {
+        t_c04_c11_emit_mixed = emit_event_lemma(1, [[F, T], [T, F]], [T, F], 1, 0, true) => log_len() == 2;
+        t_c04_c11_emit_nobody = emit_event_lemma(1, [[F, F], [F, F]], [F, F], 1, 1, true);
+        t_c04_c11_subscribe_first_by_owner = subscribe_event_lemma(0, [[F, F], [F, F]], [F, T], 0, 1, true);
+        t_c04_c11_subscribe_other_event = subscribe_event_lemma(1, [[T, F], [T, F]], [F, F], 0, 1, true);
+        t_c04_c11_unsubscribe_last_by_owner = unsubscribe_event_lemma(0, [[F, T], [F, F]], [F, F], 0, 1, true);
+        t_c04_c11_unsubscribe_all_events_subscriber_stays = unsubscribe_event_lemma(1, [[T, F], [F, F]], [F, T], 0, 0, true);
     }
 
     #[cfg(verif_replay)]
